@@ -1,6 +1,6 @@
 import MlModel.Properties.C14
 /-!
-# Counter-examples for the two WF hypotheses of `C14_eval` (known findings C14-F1, C14-F2)
+# Counter-example for the WF hypothesis of `C14_eval` (known finding C14-F1) and the repaired C14-F2
 
 Concrete instances, decided by evaluation of the model; the same inputs are replayed on the real code
 by every run of the check (`known_findings.d/C14.json`).
@@ -20,11 +20,12 @@ theorem C14_F1_witness :
     (getResult (.excValue valueError) {} srv).1 ≠ (run (.excValue valueError) srv).1.map wrap ∧
     (getResult (.excValue valueError) {} srv).1 = (getResult (.raise valueError) {} srv).1 := by decide
 
-/-- C14-F2: `RuntimeError('boom')` with an attribute `code == 4` raised on the server reaches the caller
-as `TimeoutError('Try longer timeout on …')`: type and message are lost. -/
-theorem C14_F2_witness :
+/-- C14-F2 (fixed): `RuntimeError('boom')` with an attribute `code == 4` raised on the server used to reach
+the caller as `TimeoutError('Try longer timeout on …')`; with the repaired `get_result` it arrives unchanged,
+and the transport's own deadline error is still mapped. -/
+theorem C14_F2_fixed :
     (run (.raise boom4) srv).1 = .error boom4 ∧
-    (getResult (.raise boom4) {} srv).1 = .error tryLongerExc ∧
-    tryLongerExc.kind ≠ boom4.kind ∧ tryLongerExc.msg ≠ boom4.msg := by decide
+    (getResult (.raise boom4) {} srv).1 = .error boom4 ∧
+    (getResult (.raise boom4) { fate := .deadline } srv).1 = .error tryLongerExc := by decide
 
 end MlModel.C14.Witness
